@@ -124,6 +124,8 @@ pub fn run(cfg: &RunCfg) -> Ctx {
     }));
     if !crate::ctx::small() {
         all.merge(par_cases(cfg, "sockets", cfg.n(30, 16 * 60), || (), |_, _rng, ctx, i| sockets_case(ctx, i)));
+        all.merge(par_cases(cfg, "executor", cfg.n(16, 16 * 16), || (), |_, _rng, ctx, i| executor_case(ctx, i)));
+        all.floor("executor.scripts", 8);
     }
     all.floor("opt.connect_timeout", 10);
     all.floor("model.call_ok_on_live_connection", 10);
@@ -523,6 +525,150 @@ fn scenario(rng: &mut Rng, ctx: &mut Ctx, lazy: bool, outcomes: Vec<bool>, ops: 
 /// over loopback TCP: fail while nothing listens, succeed once the server is there, again after a
 /// restart.  Real time (no paused clock: the kernel is in the loop); a call that takes longer than
 /// 20 s wall clock where the unchanged code answers in milliseconds is reported as a hang.
+/// An executor that owes nothing to Tokio: every task gets its own OS thread and a park/unpark
+/// waker.  `Endpoint::executor` promises that the channel's background work runs on it.
+#[derive(Clone)]
+struct ThreadExec {
+    spawned: Arc<std::sync::atomic::AtomicU64>,
+}
+struct ThreadWaker(std::thread::Thread);
+impl std::task::Wake for ThreadWaker {
+    fn wake(self: Arc<Self>) {
+        self.0.unpark();
+    }
+}
+impl<F> hyper::rt::Executor<F> for ThreadExec
+where
+    F: std::future::Future + Send + 'static,
+    F::Output: Send + 'static,
+{
+    fn execute(&self, fut: F) {
+        self.spawned.fetch_add(1, std::sync::atomic::Ordering::SeqCst);
+        let _ = std::thread::Builder::new().name("verif-exec".into()).spawn(move || {
+            let mut fut = Box::pin(fut);
+            let waker = std::task::Waker::from(Arc::new(ThreadWaker(std::thread::current())));
+            let mut cx = std::task::Context::from_waker(&waker);
+            // bounded life: a task that is never woken again ends with the process
+            for _ in 0..2_000_000u64 {
+                if fut.as_mut().poll(&mut cx).is_ready() {
+                    return;
+                }
+                std::thread::park_timeout(Duration::from_millis(200));
+            }
+        });
+    }
+}
+
+/// The fail / recover script once more, on a channel whose `Endpoint::executor` is not Tokio's.
+fn executor_case(ctx: &mut Ctx, i: u64) {
+    use std::sync::atomic::Ordering::SeqCst;
+    let scripts: [&[bool]; 4] = [&[false, true], &[true], &[false, false, true], &[true, false, true]];
+    let outcomes: Vec<bool> = scripts[(i % 4) as usize].to_vec();
+    let lazy = (i / 4) % 2 == 0 || !outcomes[0];
+    let kill_between = outcomes.len() == 3 && outcomes[0];
+    ctx.begin("custom-executor", json!({"connect_outcomes": outcomes.iter().map(|b| if *b {"ok"} else {"fail"}).collect::<Vec<_>>(), "lazy": lazy, "peer_drops_first_connection": kill_between}));
+    let rt = match tokio::runtime::Builder::new_current_thread().enable_all().build() {
+        Ok(rt) => rt,
+        Err(_) => return,
+    };
+    let spawned = Arc::new(std::sync::atomic::AtomicU64::new(0));
+    let exec = ThreadExec { spawned: spawned.clone() };
+    let handler = Handler::new();
+    let h2 = handler.clone();
+    let res: Result<Vec<String>, (String, String)> = rt.block_on(async move {
+        let limit = Duration::from_secs(20);
+        let (conn_tx, conn_rx) = mpsc::unbounded_channel();
+        let server = tokio::spawn(async move {
+            let _ = Server::builder().add_service(VerifServer::new(h2)).serve_with_incoming(Incoming(conn_rx)).await;
+        });
+        let st = Arc::new(Mutex::new(ConnState { outcomes: outcomes.iter().copied().collect(), invocations: 0, consumed: vec![], live: None, pipes: 0 }));
+        let st2 = st.clone();
+        let connector = tower::service_fn(move |_uri: http::Uri| {
+            let st = st2.clone();
+            let tx = conn_tx.clone();
+            async move {
+                let mut s = st.lock().unwrap();
+                s.invocations += 1;
+                if s.invocations > 200 {
+                    return Err(std::io::Error::other("verif: connector invoked more than 200 times"));
+                }
+                let ok = s.outcomes.pop_front().unwrap_or(false);
+                s.consumed.push(ok);
+                if ok {
+                    s.pipes += 1;
+                    let (a, b, h) = pipe(&format!("x{}", s.pipes), PipeCfg::plain(), Rng::new(s.pipes), None);
+                    let _ = tx.send(Ok::<_, std::io::Error>(b));
+                    s.live = Some(h);
+                    Ok::<_, std::io::Error>(TokioIo::new(a))
+                } else {
+                    Err(std::io::Error::new(std::io::ErrorKind::ConnectionRefused, "scripted connect failure"))
+                }
+            }
+        });
+        let ep = Endpoint::from_static("http://verif.test:50051").executor(exec);
+        let channel = if lazy {
+            ep.connect_with_connector_lazy(connector)
+        } else {
+            match tokio::time::timeout(limit, ep.connect_with_connector(connector)).await {
+                Err(_) => return Err(("hang".into(), "eager connect did not resolve within 20 s".into())),
+                Ok(Err(e)) => return Err(("eager-connect-failed".into(), format!("eager connect failed although the attempt succeeded: {}", e))),
+                Ok(Ok(ch)) => ch,
+            }
+        };
+        let mut client = VerifClient::new(channel);
+        let mut steps = Vec::new();
+        let mut connected = !lazy;
+        let total_calls = outcomes.len() + 1;
+        for call_no in 1..=total_calls {
+            if kill_between && call_no == 2 {
+                if let Some(h) = st.lock().unwrap().live.take() {
+                    h.kill();
+                    connected = false;
+                    tokio::time::sleep(Duration::from_millis(50)).await;
+                }
+            }
+            let before = st.lock().unwrap().consumed.len();
+            let r = match tokio::time::timeout(limit, client.unary(tonic::Request::new(Msg { data: vec![3; 8], seq: call_no as u64, tag: String::new() }))).await {
+                Err(_) => return Err(("hang".into(), format!("call {} did not resolve within 20 s", call_no))),
+                Ok(r) => r,
+            };
+            let consumed: Vec<bool> = st.lock().unwrap().consumed[before..].to_vec();
+            let reachable = consumed.last().copied().unwrap_or(connected);
+            match (&r, reachable) {
+                (Ok(_), true) => {
+                    connected = true;
+                    steps.push("ok".to_string());
+                }
+                (Ok(_), false) => return Err(("ok-without-connection".into(), format!("call {} succeeded although no connection could be made", call_no))),
+                (Err(s), true) => return Err(("reachable-but-failed".into(), format!("call {}: a connection {} but the call failed: {:?} {}", call_no, if consumed.is_empty() { "exists" } else { "was made" }, s.code(), s.message()))),
+                (Err(s), false) => {
+                    if s.code() != tonic::Code::Unavailable {
+                        return Err(("wrong-code".into(), format!("call {} failed with {:?} ({}) while no connection can be made; want UNAVAILABLE", call_no, s.code(), s.message())));
+                    }
+                    connected = false;
+                    steps.push("unavailable".to_string());
+                }
+            }
+        }
+        drop(client);
+        server.abort();
+        Ok(steps)
+    });
+    drop(rt);
+    match res {
+        Err((dev, what)) => ctx.violation(&dev, what),
+        Ok(steps) => {
+            if spawned.load(SeqCst) == 0 {
+                ctx.violation("executor-unused", "the channel never handed a task to the executor configured with Endpoint::executor".into());
+            }
+            ctx.count("executor.scripts");
+            ctx.add("observed.tasks_given_to_custom_executor", spawned.load(SeqCst));
+            let _ = handler;
+            ctx.fingerprint(format!("exec|{}|{}", i % 8, steps.join(">")), true);
+        }
+    }
+}
+
 fn sockets_case(ctx: &mut Ctx, i: u64) {
     use std::sync::atomic::Ordering::SeqCst;
     let kind = ["uds-lazy", "uds-eager", "balance-list"][(i % 3) as usize];
